@@ -25,13 +25,24 @@ type Outcome struct {
 	Panic *PanicInfo
 }
 
+// preInstr is the pre-decoded operand list of one instruction: for operand k (in Operands order)
+// either a frame slot (ops[k] >= 0) or a cached constant.
+type preInstr struct {
+	vals   []ssa.Value
+	ops    []int32
+	consts []Value
+	slot   int32 // frame slot defined by the instruction, -1 if none
+}
+
 type fnInfo struct {
 	idx   map[ssa.Value]int
 	n     int
+	pre   [][]*preInstr
 	ipdom []*ssa.BasicBlock // immediate post-dominator per block index (nil = function exit)
 }
 
 type frame struct {
+	cur    *preInstr
 	fn     *ssa.Function
 	fi     *fnInfo
 	locals []Value
@@ -93,8 +104,49 @@ func (e *Engine) info(fn *ssa.Function) *fnInfo {
 		}
 	}
 	fi.ipdom = postDominators(fn)
+	fi.pre = make([][]*preInstr, len(fn.Blocks))
+	for bi, b := range fn.Blocks {
+		fi.pre[bi] = make([]*preInstr, len(b.Instrs))
+		for ii, in := range b.Instrs {
+			pi := &preInstr{slot: -1}
+			if v, ok := in.(ssa.Value); ok {
+				pi.slot = int32(fi.idx[v])
+			}
+			var buf [8]*ssa.Value
+			for _, op := range in.Operands(buf[:0]) {
+				if op == nil || *op == nil {
+					continue
+				}
+				v := *op
+				pi.vals = append(pi.vals, v)
+				if s, ok := fi.idx[v]; ok {
+					pi.ops = append(pi.ops, int32(s))
+					pi.consts = append(pi.consts, nil)
+					continue
+				}
+				pi.ops = append(pi.ops, -1)
+				if c, ok := v.(*ssa.Const); ok {
+					pi.consts = append(pi.consts, e.safeConst(c))
+				} else {
+					pi.consts = append(pi.consts, nil)
+				}
+			}
+			fi.pre[bi][ii] = pi
+		}
+	}
 	e.fnInfos[fn] = fi
 	return fi
+}
+
+// safeConst evaluates a constant operand ahead of time; constants of unsupported types stay nil
+// and are reported when (and if) they are actually used.
+func (e *Engine) safeConst(c *ssa.Const) (v Value) {
+	defer func() {
+		if r := recover(); r != nil {
+			v = nil
+		}
+	}()
+	return e.constVal(c)
 }
 
 // postDominators computes immediate post-dominators on the CFG without panic-terminated
@@ -187,9 +239,30 @@ func postDominators(fn *ssa.Function) []*ssa.BasicBlock {
 	return res
 }
 
-func (fr *frame) set(v ssa.Value, x Value) { fr.locals[fr.fi.idx[v]] = x }
+func (fr *frame) set(v ssa.Value, x Value) {
+	if c := fr.cur; c != nil && c.slot >= 0 {
+		if cv, ok := fr.block.Instrs[fr.ip-1].(ssa.Value); ok && fr.ip > 0 && cv == v {
+			fr.locals[c.slot] = x
+			return
+		}
+	}
+	fr.locals[fr.fi.idx[v]] = x
+}
 
 func (e *Engine) get(st *State, fr *frame, v ssa.Value) Value {
+	if c := fr.cur; c != nil {
+		for k, ov := range c.vals {
+			if ov == v {
+				if s := c.ops[k]; s >= 0 {
+					return fr.locals[s]
+				}
+				if cv := c.consts[k]; cv != nil {
+					return cv
+				}
+				break
+			}
+		}
+	}
 	switch x := v.(type) {
 	case *ssa.Const:
 		if c, ok := e.constCache[x]; ok {
@@ -406,6 +479,7 @@ func (e *Engine) runTask(rc *runCtx, t task) {
 			panic(unsupported("fell off block end in " + fr.fn.String()))
 		}
 		in := fr.block.Instrs[fr.ip]
+		fr.cur = fr.fi.pre[fr.block.Index][fr.ip]
 		fr.ip++
 		st.steps++
 		e.stats.Instrs++
@@ -665,6 +739,13 @@ func (e *Engine) requireNonNil(rc *runCtx, st *State, p *Ptr, in ssa.Instruction
 // ---------------------------------------------------------------- value instructions
 
 func one(st *State, v Value) []cont { return []cont{{st, v}} }
+
+// one1 is one() without the allocation, for the engine's hottest instructions; the result is
+// consumed by spread before any other instruction runs.
+func (e *Engine) one1(st *State, v Value) []cont {
+	e.oneBuf[0] = cont{st, v}
+	return e.oneBuf[:]
+}
 
 func (e *Engine) eval(rc *runCtx, st *State, fr *frame, in ssa.Value) []cont {
 	switch x := in.(type) {
